@@ -47,7 +47,7 @@ def _case(draw):
                           FL=draw(gen.limiter_names)))
     # 'late': the boundary conditions are edited AFTER the variable exists (all sides, or one side only), so the solve has
     # to notice the edit and rebuild its cached boundary system
-    late = draw(st.sampled_from(['none', 'none', 'all', 'one', 'one']))
+    late = draw(st.sampled_from(['none', 'none', 'all', 'one', 'one', 'aug']))
     return dict(grid=g, bc=bc, init=draw(gen.cell_interior(d)), terms=terms, ext=draw(st.booleans()),
                 lin_seed=draw(st.integers(0, 2 ** 31 - 1)), late=late,
                 late_side=[draw(st.integers(0, len(d) - 1)), draw(st.sampled_from(['lo', 'hi']))], presolve=draw(st.booleans()),
@@ -203,6 +203,20 @@ def check(case):
         if late == 'all':
             from ..common import apply_bc
             apply_bc(phi.BCs, case['bc'])
+        elif late == 'aug':
+            # the coefficients of one side are updated by augmented assignment on the attribute (face.c += v, face.b += v):
+            # default no-flux (a=1,b=0,c=0) becomes a Robin condition  a*dphi/dn + b*phi = c
+            ax, side = case['late_side']
+            bf = getattr(phi.BCs, SIDES[ax][0 if side == 'lo' else 1])
+            bf.c += 0.75
+            bf.b += 0.5
+            bf.a *= (2.0 if side == 'hi' else -2.0)
+            bc_final = default_bc_spec(d)
+            for e in bc_final:
+                for sd in ('lo', 'hi'):
+                    e[sd]['kind'] = 'N'
+            shp = np.array(bc_final[ax][side]['a']).shape
+            bc_final[ax][side] = dict(kind='R', a=np.full(shp, 2.0 if side == 'hi' else -2.0).tolist(), b=np.full(shp, 0.5).tolist(), c=np.full(shp, 0.75).tolist())
         else:
             ax, side = case['late_side']
             bc_final = default_bc_spec(d)
